@@ -304,7 +304,11 @@ def r5_geometry_order(chk, j):
         return hits[0]
     v1 = var_from(lambda x: norm(x) == f"{s1}.vector({n1}, {a1})", "the attachment vector of the first structure")
     v2 = var_from(lambda x: norm(x) == f"{s2}.vector({n2}, {a2})", "the attachment vector of the second structure")
-    tr = [x for nm, vals in asg.items() for x in vals if isinstance(x, ast.AST) and "dist" in names_in(x) and v1 in names_in(x)]
+    from ..canon import Env
+
+    env = Env(j.node)
+    keep = set(R.values()) | {v1, v2}
+    tr = [y for y in (env.expand(x, keep=keep) for nm, vals in asg.items() for x in vals if isinstance(x, ast.AST) and v1 in names_in(x)) if "dist" in names_in(y)]
     ok = len(tr) == 1 and f"np.linalg.norm({v1})" in norm(tr[0]) and isinstance(tr[0], ast.BinOp)
     chk.decide(ok, "C12.R5", f"{j.key}:requested-length-reaches-translation", j.where(), f"translation = {v1} * (dist or expected) / |{v1}|",
                f"no translation of the form {v1} * (dist or ...) / |{v1}| found: the requested bond length does not scale the unit vector along {v1}")
